@@ -493,6 +493,8 @@ def run_helper_correspondence(rep, cases, kinds=("macro", "makeargs", "builderr"
 def _pipeline_case(src, mode="exec"):
     if "!" in src.replace("!=", ""):
         return None
+    if any(0xD800 <= ord(c) <= 0xDFFF for c in src):
+        return None  # a lone surrogate: what happens is the codec's doing (KF-C03-lone-surrogate), not in the model
     from harness import impl
 
     o = impl.parse(src, mode)
